@@ -173,6 +173,12 @@ def run(tier, seed, replay=None):
                     cause = "flattened_extra_required_by_builder"   # only the typed additionalProperties MAP member
                 rep.violation("builder_outcome", site, dict(det, err=err_), cause=cause, **kw)
                 continue
+            if b_ok and s_ok and not d_ok and m.get("schema_reference", True):
+                # every member the schema requires is set and the builder builds it, but the type's own deserialiser
+                # refuses the very same members: the defaults the two sides apply cannot be "the same values"
+                rep.violation("serde_rejects_what_builder_builds", common.site_of(oref.get("err") or ""),
+                              dict(det, err=oref.get("err")), **kw)
+                continue
             if b_ok and d_ok:
                 bv = json.loads(((o["r"].get("val") or {}).get("text")) or "null")
                 dv = json.loads(oref.get("w") or "null")
